@@ -112,6 +112,18 @@ Theorem C19_random_key_seed_rules :
 Proof. exact key_seed_rules. Qed.
 Print Assumptions C19_random_key_seed_rules.
 
+(** however key and seed are bound (keyword, both positional, key as the last positional
+    argument), the call is the same call *)
+Theorem C19_random_binder_independent :
+  forall (Key Seed Shape Dtype Arr : Type) (prngkey : Seed -> Key) (split0 : Key -> Key)
+         (seed0 : Seed) (gen : Key -> Shape -> Dtype -> Arr) sh d key seed,
+    let F := fun_alt Key Seed Shape Dtype Arr prngkey split0 seed0 gen sh d in
+    F (Some key) None None seed = F None None key seed /\
+    F (Some key) (Some seed) None None = F None None key seed /\
+    F (Some None) (Some None) key seed = F None None None None.
+Proof. exact binder_independent. Qed.
+Print Assumptions C19_random_binder_independent.
+
 (** nested shape => block array, one block per inner shape, block i = the flat draw of
     shape s_i with the same key *)
 Theorem C19_random_nested_gives_blocks :
